@@ -183,52 +183,82 @@ func analyzeMarker(pass *codegen.Pass, markersInspect markers.Markers, typeMarke
 		// Traverse nested structs
 		structType, ok := field.Type.(*ast.StructType)
 		if !ok {
-			validators = makeValidator(input)
-			if len(validators) == 0 {
-				continue
-			}
+			// `A, B T` declares one field per name: every name gets its own validators.
+			for _, named := range splitFieldNames(field) {
+				input.Field = named
 
-			analyzed = append(analyzed, &AnalyzedMetadata{
-				Validators:     validators,
-				ParentVariable: parent,
-			})
+				validators = makeValidator(input)
+				if len(validators) == 0 {
+					continue
+				}
+
+				analyzed = append(analyzed, &AnalyzedMetadata{
+					Validators:     validators,
+					ParentVariable: parent,
+				})
+			}
 
 			continue
 		}
 
-		for _, field := range structType.Fields.List {
-			/*
-				Propagate parent markers to nested fields
+		// `A, B struct{...}` declares one nested struct per name.
+		for _, nested := range splitFieldNames(field) {
+			validators = make([]validator.Validator, 0)
 
-				//govalid:required
-				type Nested struct {
-					Name string `json:"name"`
+			for _, field := range structType.Fields.List {
+				/*
+					Propagate parent markers to nested fields
+
+					//govalid:required
+					type Nested struct {
+						Name string `json:"name"`
+					}
+				*/
+				for _, named := range splitFieldNames(field) {
+					input.Field = named
+					validators = append(validators, makeValidator(input)...)
 				}
-			*/
-			input.Field = field
-			validators = append(validators, makeValidator(input)...)
-		}
+			}
 
-		// Add the parent variable name to the analyzed metadata
-		var parentVariable string
-		if parent != "" {
-			parentVariable = fmt.Sprintf("%s.%s", parent, field.Names[0].Name)
-		} else {
-			parentVariable = field.Names[0].Name
-		}
+			// Add the parent variable name to the analyzed metadata
+			var parentVariable string
+			if parent != "" {
+				parentVariable = fmt.Sprintf("%s.%s", parent, nested.Names[0].Name)
+			} else {
+				parentVariable = nested.Names[0].Name
+			}
 
-		if len(validators) > 0 {
-			analyzed = append(analyzed, &AnalyzedMetadata{
-				Validators:     validators,
-				ParentVariable: parentVariable,
-			})
-		}
+			if len(validators) > 0 {
+				analyzed = append(analyzed, &AnalyzedMetadata{
+					Validators:     validators,
+					ParentVariable: parentVariable,
+				})
+			}
 
-		// Recursively analyze nested structs
-		analyzed = append(analyzed, analyzeMarker(pass, markersInspect, typeMarkers, structType, parentVariable, structName)...)
+			// Recursively analyze nested structs
+			analyzed = append(analyzed, analyzeMarker(pass, markersInspect, typeMarkers, structType, parentVariable, structName)...)
+		}
 	}
 
 	return analyzed
+}
+
+// splitFieldNames returns one single-name copy of the field per declared name (`A, B T`),
+// because validators address a field through its first name only.
+func splitFieldNames(field *ast.Field) []*ast.Field {
+	if len(field.Names) <= 1 {
+		return []*ast.Field{field}
+	}
+
+	fields := make([]*ast.Field, 0, len(field.Names))
+
+	for _, name := range field.Names {
+		named := *field
+		named.Names = []*ast.Ident{name}
+		fields = append(fields, &named)
+	}
+
+	return fields
 }
 
 func makeValidator(input makeValidatorInput) []validator.Validator {
